@@ -169,18 +169,27 @@ func c01Slots(c *core.Ctx) {
 		// voting
 		he := c.Fn("abft.Orderer.handleElection")
 		spf, root := he.Param(0), he.Param(1)
-		votes := he.CallsTo("abft/election.Election.ProcessRoot")
-		for _, cs := range votes {
+		// the live vote: ProcessRoot called in handleElection's slot loop, or in a helper called from that
+		// loop which is handed the root and the frame (the replay of stored roots votes too, but is not
+		// the live vote)
+		var votes []c01Effect
+		for _, e := range c01Effects(he, func(cs *core.CallSite) bool { return cs.Name == "abft/election.Election.ProcessRoot" }) {
+			if e.G == he || !c01IsReplayCall(e.At) {
+				votes = append(votes, e)
+			}
+		}
+		for _, e := range votes {
+			cs := e.Eff
 			c.Need(len(cs.Call.Args) == 1, "ProcessRoot takes the root and slot")
-			cl, why := c01CountedLoop(he, enclosingLoop(he, cs.Pos()))
+			cl, why := c01CountedLoop(he, enclosingLoop(he, e.At.Pos()))
 			if cl == nil {
 				c.Undecided("voting enumerates frames selfParentFrame+1 .. root.Frame()", "T16b SiblingAgreement (loop bounds)", cs.Pos(), "the live vote is not cast inside a counted loop over the root's frames: "+why)
 				continue
 			}
-			fields := c01StructFields(he, cs.Call.Args[0])
-			okID := c01MethodOn(he, fields["ID"], "ID") == root && root != nil
-			okVal := c01MethodOn(he, fields["Slot.Validator"], "Creator") == root && root != nil
-			frameExpr := fields["Slot.Frame"]
+			rec := c01RecordOf(e, cs.Call.Args[0])
+			okID := rec.id == root && root != nil
+			okVal := rec.validator == root && root != nil
+			frameExpr := rec.frame
 			okFrame := false
 			if frameExpr != nil {
 				fl := core.Linearize(he.Info(), resolveLocal(he, frameExpr), c01SlotNamer(he, cl, spf, root))
